@@ -597,10 +597,13 @@ def dbdLoop (P : DParams) : Nat → DState → List Draw → Except Err (Option 
     else .ok (some s, ds)
 
 /-- `while (max_time is None or num_gens < max_time): u = rng.uniform(0, 1); if u < birth + death: break; gens_to_add += 1` -/
+def gensGo (P : DParams) (gens : Nat) : Bool :=
+  match P.maxGens with | some m => decide (gens < m) | none => true
+
 def addGens (P : DParams) (gens : Nat) : List Draw → Nat → Except Err (Nat × List Draw)
-  | [], acc => if (match P.maxGens with | some m => decide (gens < m) | none => true) then .error .draws else .ok (acc, [])
+  | [], acc => if gensGo P gens then .error .draws else .ok (acc, [])
   | dr :: ds, acc =>
-    if (match P.maxGens with | some m => decide (gens < m) | none => true) then
+    if gensGo P gens then
       match dr with
       | .u p q =>
         if q ≤ 0 || p < 0 || p ≥ q then .error .kind else
